@@ -97,7 +97,7 @@ def h_costs_for_factor(env):
     for d in x.domain:
         # exact up to the (value independent) normalisation constant
         env.prove("costs_for_factor.message-is-own-cost-plus-costs-of-the-other-factors-up-to-a-constant",
-                  close(r[d] - r[d0], base[d] - base[d0], 1e-9, 1e-3), detail=lambda: dict(d=d, msg=r, base=base))
+                  close(r[d] - r[d0], base[d] - base[d0], 1e-9, 1e-6), detail=lambda: dict(d=d, msg=r, base=base))
 
 
 Contract(
@@ -105,7 +105,8 @@ Contract(
     h_costs_for_factor,
     lambda tier: [dict(domain=[10, 0], factors=["f", "g"], target=0), dict(domain=[10, 0, 5], factors=["f", "g", "h"], target=1),
                   dict(domain=[10, 0], factors=["f"], target=0)],
-    mode="B", must_cover=["post"],
+    mode="B", must_cover=["post"], budget=dict(sample_max_mag=2 ** 20),
+    assumptions=["costs_for_factor divides by the domain size: the sampled native pass uses magnitudes <= 2**20 and a 1e-6 tolerance (float rounding is not a property violation); the symbolic pass is exact"],
     desc="msg[d] = own_cost(d) + sum of the costs received from the OTHER factors, up to a constant shift",
 )
 
